@@ -256,6 +256,12 @@ def run_case(case, ctx):
     if case.get('bigids') and cdt == 'uint16' and max(ids) > 65535:
         cdt = 'uint32'
     spike_clusters = np.array([ids[int(l)] for l in labels], dtype=cdt)
+    if not case.get('bigids') and (len(labels) + b + k) % 5 == 0 and nC >= 4:
+        # the ids are exactly 0..n-1, listed with the first and the last in place and the inner ones permuted
+        inner = list(range(1, nC - 1))
+        inner = inner[::-1] if (len(labels) + h) % 2 else inner[1:] + inner[:1]
+        id_list = [0] + inner + [nC - 1]
+        spike_clusters = np.array([id_list[int(p)] for p in lab_pos], dtype=cdt)
     times = samples / rate
     bs_ = b / rate
     if not case.get('f32') and not (np.array_equal(times * rate, samples) and bs_ * rate == b and int(rate * bs_) == b and
@@ -320,7 +326,8 @@ def run_case(case, ctx):
         ctx.violation('one_sided_count_mismatch', case, d, feats)
     # (1b) a second identical call gives the same answer and the caller's arrays are left alone
     # (the second call uses the documented positional order)
-    r1b = call(correlograms, times, spike_clusters, list(id_list), rate, bin_size, window, False)
+    # ... and names the clusters in a tuple
+    r1b = call(correlograms, times, spike_clusters, tuple(id_list), rate, bin_size, window, False)
     if r1b.ok and same(r1b.value, exp, dtype=False):
         ctx.violation('one_sided_count_mismatch', case, 'second identical call: ' + same(r1b.value, exp, dtype=False), dict(feats, repeat=True))
     if not (np.array_equal(spike_clusters, sc_before) and np.array_equal(times, t_before)):
